@@ -1090,6 +1090,14 @@ class BaseResolver:
             raise LifetimeTimeout(timeout=duration, errors=errors)
         return min(lifetime - duration, self.timeout)
 
+    def _clamp_backoff(
+        self, start: float, lifetime: float | None, backoff: float
+    ) -> float:
+        # Don't sleep past the end of the resolution's lifetime.
+        lifetime = self.lifetime if lifetime is None else lifetime
+        remaining = lifetime - (time.time() - start)
+        return max(0.0, min(backoff, remaining))
+
     def _get_qnames_to_try(
         self, qname: dns.name.Name, search: bool | None
     ) -> list[dns.name.Name]:
@@ -1317,7 +1325,7 @@ class Resolver(BaseResolver):
             while not done:
                 nameserver, tcp, backoff = resolution.next_nameserver()
                 if backoff:
-                    time.sleep(backoff)
+                    time.sleep(self._clamp_backoff(start, lifetime, backoff))
                 timeout = self._compute_timeout(start, lifetime, resolution.errors)
                 try:
                     response = nameserver.query(
